@@ -64,15 +64,22 @@ FACET_OF = {"d": "bounds", "r": "reported", "n": "reported", "c": "contra", "s":
             "t": "tables", "g": "groundings", "e": "errors", "b": "bounds", "ok": None}
 
 
+_RAT = None
+
+
 def values_in(line):
-    """all rationals occurring in a model output line"""
+    """all rationals occurring in a model output line (after its tag)"""
+    global _RAT
+    import re
+    if _RAT is None:
+        _RAT = re.compile(r"-?\d+(?:/\d+)?")
+    body = line.split(" ", 1)[1] if " " in line else ""
     vals = []
-    for tok in line.split()[1:]:
-        for part in tok.replace("=", ",").split(","):
-            try:
-                vals.append(parse_q(part))
-            except Exception:
-                pass
+    for tok in _RAT.findall(body):
+        try:
+            vals.append(parse_q(tok))
+        except Exception:
+            pass
     return vals
 
 
